@@ -48,6 +48,15 @@ theorem interleaving_independent {n : Nat} (g : G) (st : Fin n → M.S) (sched :
 `init` that writes a package-level variable -/
 theorem no_shared_mutable_state : SF.Gen.Globals.facts = [] := SF.GenCheck.globals
 
+/-- … nor is a field of any type that has a package-level INSTANCE (the stateless singleton
+unfolder states, shared by every Unfolder) written anywhere except in constructors of fresh
+values and in the registry type whose package-level instance no iterator uses; nor is a method
+(atomic Store / Load, Lock, …) called on a package-level variable (same regenerated facts:
+`Globals` also lists `method-…` calls) -/
+theorem no_singleton_state : SF.Gen.Singletons.facts.length = 13 ∧
+    SF.Gen.Singletons.facts.head? = some "gotype.fieldUnfolder.initState:store-in:makeFieldUnfolder" := by
+  rw [SF.GenCheck.singletonWritesKnown]; decide
+
 /-- non-vacuity: two counters stepped in an interleaved order -/
 @[reducible] def counter : Machine Unit :=
   { S := Nat, Op := Nat, Out := Nat, step := fun _ s op => (s + op, s + op) }
